@@ -3,9 +3,13 @@
 The statement is a two-run (relational) claim, so the oracle is a two-world comparison of the REAL code:
 
   world A   build tree T, apply history H (cache live, handed-out canvases held as a Screen would hold
-            them), then ask the observations O1..Ok (render at 2 sizes x focus; rows for flow roots).
+            them), then ask the observations O1..Ok (render at 2 sizes x focus, the first render asked
+            again at the end; rows for flow roots).
   world B   build the same tree again, apply the same H in the same way, then ask the same O1..Ok but
             with ``CanvasCache.clear()`` immediately before every Oi ("the cache emptied first").
+
+Failures are minimised by step removal (each candidate re-run on the real code) and grouped by the
+mutators of the minimal history ("failure_groups" / "failure_group_examples" in each check result).
 
 Both worlds execute exactly the same public calls in the same order; the only difference is whether a
 cached canvas is available when an observation is made.  Any difference in (content(), cursor, cols,
@@ -19,8 +23,9 @@ and garbage collection (drop the held canvases except the latest / all of them, 
 
 Readings of the statement fixed here:
  * "public mutators" = methods and property setters.  Assigning a plain public attribute that has no
-   setter (Padding.left, Filler.top, Divider.div_char, BoxAdapter.height, GridFlow.h_sep ...) is not a
-   mutator call and is not in the alphabet.
+   setter (Padding.left, Filler.top, Divider.div_char, BoxAdapter.height, GridFlow.h_sep, Overlay.top_w,
+   Overlay.bottom_w ...) is not a mutator call and is not in the alphabet.  (A first version had
+   Overlay.top_w/bottom_w in the alphabet and reported them stale: a false alarm of the harness, removed.)
  * keypress is delivered to the root only when root.selectable() (MainLoop.process_input does the same).
  * An exception raised identically in both worlds is not a cache matter (it belongs to other
    properties); an exception in one world only, or of different type, is a failure.
